@@ -9,66 +9,66 @@ package extractor
 //@ func extractFromScriptContent
 //@   property C10
 //@   opaque
-//@   sweep idx slice div
+//@   sweep idx slice div assert
 //@ func parseAttr
 //@   property C10
 //@   opaque
-//@   sweep idx slice div
+//@   sweep idx slice div assert
 //@ func isContentType
 //@   property C10
 //@   opaque
-//@   sweep idx slice div
+//@   sweep idx slice div assert
 //@ func resolveURL
 //@   property C10
 //@   opaque
-//@   sweep idx slice div
+//@   sweep idx slice div assert
 //@ func extractBaseTag
 //@   property C10
 //@   opaque
-//@   sweep idx slice div
+//@   sweep idx slice div assert
 //@ func HTMLAssets$1
 //@   property C10
 //@   opaque
-//@   sweep idx slice div
+//@   sweep idx slice div assert
 //@   loop range invariant [groups] forall(j, 0, len(matches), len(matches[j]) == 2)
 //@ func HTMLAssets$2
 //@   property C10
 //@   opaque
-//@   sweep idx slice div
+//@   sweep idx slice div assert
 //@ func HTMLAssets$3
 //@   property C10
 //@   opaque
-//@   sweep idx slice div
+//@   sweep idx slice div assert
 //@ func HTMLAssets$4
 //@   property C10
 //@   opaque
-//@   sweep idx slice div
+//@   sweep idx slice div assert
 //@ func HTMLAssets$5
 //@   property C10
 //@   opaque
-//@   sweep idx slice div
+//@   sweep idx slice div assert
 //@   loop range invariant [groups] forall(j, 0, len(matches), len(matches[j]) == 2)
 //@ func HTMLAssets$6
 //@   property C10
 //@   opaque
-//@   sweep idx slice div
+//@   sweep idx slice div assert
 //@ func HTMLAssets$7
 //@   property C10
 //@   opaque
-//@   sweep idx slice div
+//@   sweep idx slice div assert
 //@ func HTMLAssets$8
 //@   property C10
 //@   opaque
-//@   sweep idx slice div
+//@   sweep idx slice div assert
 //@ func HTMLAssets$9
 //@   property C10
 //@   opaque
-//@   sweep idx slice div
+//@   sweep idx slice div assert
 //@ func HTMLOutlinks$1
 //@   property C10
 //@   opaque
-//@   sweep idx slice div
+//@   sweep idx slice div assert
 //@ func sortURLs
 //@   property C10
 //@   opaque
-//@   sweep idx slice div
+//@   sweep idx slice div assert
